@@ -149,7 +149,9 @@ func (t *Transcoder) registerRules(rules []*annotations.HttpRule) error {
 		if selector == "" {
 			return errors.New("rule missing selector")
 		}
+		var isWildcard bool
 		if i := strings.Index(selector, "*"); i >= 0 {
+			isWildcard = true
 			if i != len(selector)-1 {
 				return fmt.Errorf("wildcard selector %q must be at the end", rule.GetSelector())
 			}
@@ -161,6 +163,10 @@ func (t *Transcoder) registerRules(rules []*annotations.HttpRule) error {
 		for _, methodConf := range t.methods {
 			methodName := string(methodConf.descriptor.FullName())
 			if !strings.HasPrefix(methodName, selector) {
+				continue
+			}
+			if !isWildcard && methodName != selector {
+				// without a wildcard the selector names exactly one method
 				continue
 			}
 			methodRules[methodConf] = append(methodRules[methodConf], rule)
